@@ -465,18 +465,33 @@ fn three_byte_plan(idx: u64) -> Plan {
 }
 
 const FLOOD: usize = 4000;
-const FLOOD_KINDS: [&str; 8] = ["set-error-info", "unknown-data", "synchronize", "control-cooperate", "font-map", "fp-unknown", "fp-mixed", "demand-active"];
+const FLOOD_KINDS: [&str; 9] = ["set-error-info", "unknown-data", "synchronize", "control-cooperate", "font-map", "fp-unknown", "fp-mixed", "demand-active", "deactivate-all"];
 
 /// thousands of copies of a PDU the client ignores or skips in the given state, then a bitmap: everything is read with as
 /// many read calls as the application cares to make; stack depth, allocation and termination are watched
 fn run_flood(state: usize, kind: &str) -> Result<Observed, String> {
+    run_flood_ex(state, kind, false)
+}
+
+/// `one_payload`: the copies travel as share-control PDUs inside ONE slow-path payload (one frame) instead of one frame each
+fn run_flood_ex(state: usize, kind: &str, one_payload: bool) -> Result<Observed, String> {
     let mut s = to_state(state, false)?;
     let (b, w) = build_kind(&s.profile, kind, SID);
-    let frame = s.server.with(|sv| sv.wrap(&b, w));
-    let mut bytes = Vec::with_capacity(frame.v.len() * FLOOD);
-    for _ in 0..FLOOD {
-        bytes.extend_from_slice(&frame.v);
-    }
+    let bytes: Vec<u8> = if one_payload && matches!(w, Wrap::Sdi) {
+        let n = (60000 / b.v.len().max(1)).min(FLOOD).max(1);
+        let mut all = B::new();
+        for i in 0..n {
+            all.nest(&format!("c{}", i), &b);
+        }
+        s.server.with(|sv| sv.wrap(&all, Wrap::Sdi)).v
+    } else {
+        let frame = s.server.with(|sv| sv.wrap(&b, w));
+        let mut v = Vec::with_capacity(frame.v.len() * FLOOD);
+        for _ in 0..FLOOD {
+            v.extend_from_slice(&frame.v);
+        }
+        v
+    };
     s.server.with(|sv| sv.push_bytes("flood", &bytes, true));
     let (bm, wm) = build_kind(&s.profile, "fp-bitmap", SID);
     s.push("fp-bitmap", &bm, wm);
@@ -563,16 +578,17 @@ pub fn run(cfg: &Cfg) -> Report {
         total.merge(rep);
     }
     if cfg.wants(5) {
-        let n = (6 * FLOOD_KINDS.len()) as u64;
+        let n = (2 * 6 * FLOOD_KINDS.len()) as u64;
         let rep = par_run(cfg, n, 1, |idx, rep| {
             mon::begin_case(6, 5, idx, seed);
-            let (state, kind) = ((idx % 6) as usize, FLOOD_KINDS[(idx / 6) as usize]);
+            let one_payload = idx >= (6 * FLOOD_KINDS.len()) as u64;
+            let (state, kind) = ((idx % 6) as usize, FLOOD_KINDS[(idx / 6) as usize % FLOOD_KINDS.len()]);
             let plan = Plan { state, kind: kind.to_string(), layer: "frame", via_tls: false, mutant: Mutant { class: format!("flood:{}x", FLOOD), bytes: vec![], at: 0 } };
-            match run_flood(state, kind) {
+            match run_flood_ex(state, kind, one_payload) {
                 Ok(o) => {
                     rep.nontrivial(idx ^ 0xF100D);
                     let mut j = plan.to_json();
-                    j["flood"] = json!([state, kind]);
+                    j["flood"] = json!([state, kind, one_payload]);
                     // judge with a replay descriptor that regenerates the flood
                     let mut p2 = plan.clone();
                     p2.mutant.class = format!("flood:{}x{}", FLOOD, kind);
@@ -640,7 +656,7 @@ pub fn replay(cfg: &Cfg, v: &Value) -> Report {
             5 => {
                 let (state, kind) = ((a[2] % 6) as usize, FLOOD_KINDS[(a[2] / 6) as usize % FLOOD_KINDS.len()]);
                 let plan = Plan { state, kind: kind.to_string(), layer: "frame", via_tls: false, mutant: Mutant { class: format!("flood:{}x{}", FLOOD, kind), bytes: vec![], at: 0 } };
-                match run_flood(state, kind) {
+                match run_flood_ex(state, kind, a[2] >= (6 * FLOOD_KINDS.len()) as u64) {
                     Ok(o) => judge_with(&plan, &o, &mut rep, json!({"flood": [state, kind]})),
                     Err(e) => rep.selfcheck_fail(e),
                 }
@@ -653,7 +669,7 @@ pub fn replay(cfg: &Cfg, v: &Value) -> Report {
         let state = f[0].as_u64().unwrap_or(5) as usize;
         let kind = f[1].as_str().unwrap_or("set-error-info").to_string();
         let plan = Plan { state, kind: kind.clone(), layer: "frame", via_tls: false, mutant: Mutant { class: format!("flood:{}x{}", FLOOD, kind), bytes: vec![], at: 0 } };
-        match run_flood(state, &kind) {
+        match run_flood_ex(state, &kind, f.get(2).and_then(|x| x.as_bool()).unwrap_or(false)) {
             Ok(o) => judge_with(&plan, &o, &mut rep, v.clone()),
             Err(e) => rep.selfcheck_fail(e),
         }
